@@ -4,7 +4,7 @@ package main
 // first.  One step per line:
 //
 //   nonce A n | data A keyhex valhex | del A keyhex | code A len | bal A n |
-//   addbal A n | suicide A | iroot
+//   addbal A n | suicide A | iroot | snap | revert | ft A name n
 //   commit [fail=k] [die] [retry]        -- state.Commit(true) + trieDB.Commit(root)
 //   big                                   -- use large values from here on
 //
@@ -54,6 +54,7 @@ func (r *runner) runCorpus(dir string) {
 		r.stats["corpus_files"]++
 		var adb *account.AccountDB
 		touched := map[common.Address]bool{}
+		var snaps []int
 		open := func() {
 			if adb == nil {
 				adb, err = account.NewAccountDB(w.head, w.sdb)
@@ -133,6 +134,15 @@ func (r *runner) runCorpus(dir string) {
 				a := corpusAddr(f[1])
 				adb.Suicide(a)
 				touched[a] = true
+			case "snap":
+				open()
+				snaps = append(snaps, adb.Snapshot())
+			case "revert": // revert to the innermost open snapshot
+				open()
+				if len(snaps) > 0 {
+					adb.RevertToSnapshot(snaps[len(snaps)-1])
+					snaps = snaps[:len(snaps)-1]
+				}
 			case "iroot":
 				open()
 				adb.IntermediateRoot(true)
@@ -153,6 +163,7 @@ func (r *runner) runCorpus(dir string) {
 				}
 				w.commitPrepared(adb, touched, p)
 				adb = nil
+				snaps = nil
 			default:
 				panic(fmt.Sprintf("corpus %s: unknown step %q", f, line))
 			}
